@@ -178,39 +178,49 @@ def gen_pq_exhaustive(maxlen, items=(1, 2, 3), scores=((0,), (1,), (1, 0))):
 def gen_pq_random(rng, n, maxlen):
     from whatshap.priorityqueue import PriorityQueue
     for _ in range(n):
-        nitems = rng.choice([2, 3, 5, 8])
-        dim = rng.choice([1, 1, 2, 3, 0])  # 0 = mixed lengths
-        hi = rng.choice([1, 2, 3, 50])
+        nitems = rng.choice([1, 2, 3, 5, 8, 20])
+        dim = rng.choice([1, 1, 2, 3, 0, 0])  # 0 = mixed lengths (incl. the empty score vector)
+        hi = rng.choice([1, 2, 3, 50, 2 ** 31 - 2])
+        # item ids are arbitrary C ints: use a random injective relabelling incl. negative and extreme ids
+        relabel = rng.choice([None, None, "neg", "big"])
         L = rng.randint(1, maxlen)
         ops = []
         live = PriorityQueue()
         queued = set()
 
         def score():
-            d = dim if dim else rng.randint(1, 3)
-            return tuple(rng.randint(-1, hi) for _ in range(d))
+            d = dim if dim else rng.choice([0, 1, 1, 2, 3])
+            return tuple(rng.randint(-1 if hi < 100 else -hi, hi) for _ in range(d))
+
+        def iid(i):
+            if relabel == "neg":
+                return -i
+            if relabel == "big":
+                return (2 ** 31 - 1) - 7 * i if i % 2 else -(2 ** 31) + 5 * i
+            return i
         for _ in range(L):
             x = rng.random()
             absent = [i for i in range(nitems) if i not in queued]
             if x < 0.35 and absent:
                 it = rng.choice(absent)
                 s = score()
-                ops.append(("push", s, it))
-                live.push(s if len(s) != 1 else s[0], it)
+                ops.append(("push", s, iid(it)))
+                live.push(s if len(s) != 1 else s[0], iid(it))
                 queued.add(it)
             elif x < 0.6 and queued:
                 it = rng.choice(sorted(queued))
                 s = score()
-                ops.append(("change", it, s))
-                live.change_score(it, s if len(s) != 1 else s[0])
+                ops.append(("change", iid(it), s))
+                live.change_score(iid(it), s if len(s) != 1 else s[0])
             elif x < 0.85:
                 ops.append(("pop",))
                 try:
-                    queued.discard(live.pop()[1])
+                    popped = live.pop()[1]
+                    queued -= {i for i in queued if iid(i) == popped}
                 except IndexError:
                     pass
             elif x < 0.95:
-                ops.append(("get", rng.randrange(nitems + 1)))
+                ops.append(("get", iid(rng.randrange(nitems + 1))))
             else:
                 ops.append(("len",))
         yield ops
@@ -285,9 +295,11 @@ def gen_uf_exhaustive(maxmerges):
 
 def gen_uf_random(rng, n):
     for _ in range(n):
-        nv = rng.randint(1, 10)
-        values = sorted(rng.sample(range(0, 16), nv))
-        L = rng.randint(1, 30)
+        nv = rng.randint(1, 14)
+        values = rng.sample(range(0, 40), nv)
+        if rng.random() < 0.5:
+            values.sort()
+        L = rng.randint(1, 45)
         ops = []
         for _ in range(L):
             x = rng.random()
@@ -300,7 +312,7 @@ def gen_uf_random(rng, n):
                 v = rng.choice(values)
                 ops.append(("merge", v, v))
             else:
-                ops.append(rng.choice([("find", 17), ("merge", 17, values[0]), ("merge", values[0], 18)]))
+                ops.append(rng.choice([("find", 41), ("merge", 41, values[0]), ("merge", values[0], 42)]))
         ops += [("find", v) for v in values]
         yield values, ops
 
